@@ -286,6 +286,14 @@ class ApplyMixin:
                 if star:
                     cur = self.voc.sconcat(cur, star[0].py[1].t)
                 env[a.vararg.arg] = SV(cur, "tuple", py=("items", extra) if not star else None)
+        elif star and not extra:
+            # f(*xs) into fixed parameters: xs must have exactly as many elements as there are unfilled positional parameters
+            missing = [n for n in names[len(pos):] if n not in kwargs]
+            required = [n for n in missing if n not in names[len(names) - len(a.defaults):]] if a.defaults else missing
+            sq = star[0].py[1]
+            self.may_raise(st, fr, "TypeError", self.voc.slen(sq.t) == len(required), fnode, "star-arity")
+            for i, n in enumerate(required):
+                env[n] = SV(self.voc.sat(sq.t, z3.IntVal(i)), "any")
         elif extra or star:
             raise Untranslatable("too many positional arguments / star call")
         for k, x in kwargs.items():
@@ -479,6 +487,20 @@ class ApplyMixin:
             env = self.apply_param_sorts(fi, env, fr)
         spec_fr = Frame(fi if fi is not None else fr.fi, c, fi.cls if fi is not None else None, kind="spec")
         self.init_frame(spec_fr)
+        stack = self.__dict__.setdefault("_spec_stack", [])
+        if fr.kind == "spec" and (c.key in stack or len(stack) > 3):
+            # a clause that mentions the function it specifies (or deep nesting): just name the result, assume nothing more
+            sig = [self.voc.Val] * len(env) + [z3.IntSort(), self.voc.Val]
+            fsym = self.voc.fn("res_" + c.key.split("::")[-1].replace(".", "_") + f"_{len(env)}", *sig)
+            ep = z3.IntVal(0) if (c.assumed and not c.opts.get("reads_heap")) else self.heap_epoch(st)
+            return self.with_sort(fsym(*[self.box(a) for a in env.values()], ep), c.sorts.get("result", "any"))
+        stack.append(c.key)
+        try:
+            return self._apply_contract_body(c, fi, env, spec_fr, st, fr, node)
+        finally:
+            stack.pop()
+
+    def _apply_contract_body(self, c, fi, env, spec_fr, st, fr, node):
         pre_st = St(st.guards, st.facts, env, st.heap, st.eff, st.epoch)
         # preconditions are obligations of the caller
         n_pre = 0
